@@ -56,8 +56,15 @@ RULE = ('per SIMD context (x86 SSE, x86 AVX, vector extension 128/256/512, SIMDe
         'subtract reduce over every axis, axis=-1, axis=None, keepdims on/off, 1-d..4-d shapes; matmul (M,K)x(K,N) with column-major '
         'rhs, row- and column-major lhs. Each structural case carries integer provenance data (lhs id + 1000*rhs id, shuffled distinct summands, products of '
         '2s and 3s: non-zero, non-arange) and is answered three ways: SIMD evaluator (harness appends MISMATCH when it differs from '
-        'the scalar evaluator in the same binary), Lean model, NumPy. Value cases use eighth-valued random data compared bitwise '
-        '(element-wise) or within a re-association tolerance derived from the operand magnitudes (reductions, matmul); special '
+        'the scalar evaluator in the same binary), Lean model, NumPy. Value cases use eighth-valued random data mixed one in three with '
+        'precision-sensitive values of the dtype, compared bitwise (element-wise; precision scope: EVERY unary op (sqrt, ceil, floor and the nine '
+        'activations) and add/subtract/multiply/divide x context x dtype on ~115 (float) / ~135 (double) finite non-zero values whose precision '
+        'matters in that dtype: integers and the activation thresholds with both neighbours at 1 ulp, halves x.5 +-1 ulp, magnitudes around '
+        '2^22..2^24 (float) / 2^51..2^53 (double), doubles that are not floats (2.0000000001, 16777217, 1e10+0.5, 30*0.1), 0.1, 1/3, largest / '
+        'smallest normal and subnormal magnitudes; binary operand pairs with ties of the sum, products and quotients needing every bit, results '
+        'just short of / just past overflow and underflow; every value and pair in a PACKED lane (two alignments) and once in the scalar TAIL, '
+        'plus set1 operands (2-d broadcasting, outer); answered by the SIMD evaluator, the scalar evaluator in the same binary and NumPy '
+        'evaluating the same IEEE-exact operation sequence in the dtype) or within a re-association tolerance derived from the operand magnitudes (reductions, matmul); special '
         'values (-0.0, NaN, inf, denormals) go through every unary op. The pure enumerators are diffed tuple by tuple against the '
         'Lean model for lanes 2,4,8,16. Structural and memory-unsafe cases are repeated under ASan+UBSan. '
         'Integer element types: per context x {int8,uint8,int16,uint16,int32,uint32,int64,uint64} x {add, subtract, multiply where '
@@ -92,11 +99,19 @@ ANCHORS = {
     'NmVerif.Simd.scalarOp / IntTy.encode / IntTy.decode': 'view::fun::add / subtract / multiply <T,T,T>::operator(): static_cast<T>(t op u) '
         '(view/ufuncs/add.hpp, subtract.hpp:31-41, multiply.hpp); reduce / outer variant <none_t,none_t,T> returning T',
     'NmVerif.Simd.IOp.identity': 'view.op.identity() / meta::has_identity_v in eval_reduction (evaluator/ufunc.hpp:182-217,252-259)',
+    'NmVerif.Simd.packLanes / Builtin.laneD / Builtin.laneF / vecExtUnaryD / vecExtUnaryF / selectsF32': 'NMTOOLS_SIMD_VECTOR_BUILTIN and simd_op_t<vector_t<n>,T>::sqrt / floor / ceil: '
+        'if constexpr (is_same_v<data_t,float>) builtin f else builtin (vector_extension.hpp:99-160); for the x86 / SIMDe contexts the one instruction per element type '
+        '(_mm*_ceil_ps / _pd, _mm*_floor_*, _mm*_sqrt_*) is assumed to be that lane',
     'NmVerif.Simd.scalarUnary / scalarBinary2d / scalarReduceAxis / scalarReduceAxisK / scalarOuter / scalarMatmul / scalarMatmulNDA': 'array::evaluator_t<view,none_t> (array/eval.hpp) on ufunc / broadcast / reduce / outer / matmul views = NumPy',
 }
 ASSUMPTIONS = [
     'intrinsic wrappers are lane-wise (Props.C12.LaneWise1/LaneWise2): op.eval on a register = the scalar functor on each lane; '
     'hypothesis of the theorems (never an axiom), validated on this CPU by the bitwise IMPL-simd vs IMPL-scalar comparison of every run',
+    'floating-point lanes compute at the element type\'s own precision (no double lane narrowed to float, no float lane rounded twice, no approximate '
+    'reciprocal / rsqrt instruction): part of the lane-wise hypothesis for the x86 / SIMDe intrinsics, a definition for the vector-extension builtin '
+    'loop (Simd.vecExtUnaryD / vecExtUnaryF with Simd.selectsF32); measured on every run on ~115 / ~135 precision-sensitive values per dtype through '
+    'every unary op and on ~350 operand pairs per binary op, in packed lanes, tail positions and set1 operands, against the scalar evaluator and NumPy; '
+    'the driver evaluates the lane model with the C library ceilf/ceil, floorf/floor, sqrtf/sqrt of the machine running the check',
     'integer lanes (Simd.packInt = List.zipWith IOp.lane): for every context and element width w the instruction behind '
     'simd_op_t<ctx,T>::add / sub / mul is ASSUMED to be the modular operation on every w-bit lane, whatever the signedness of T: '
     'x86 SSE _mm_add_epi8/16/32/64, _mm_sub_epi8/16/32/64, _mm_mullo_epi16/32; x86 AVX _mm256_add_epi8/16/32/64, '
@@ -140,7 +155,7 @@ PARTIAL = [
     'elementwise.special-values',
 ]
 MANIFEST = dict(
-    text='Proof: 61 Lean theorems over all element counts / row lengths / ranks and all lane counts > 0: closed form of the packed loop, every '
+    text='Proof: 68 Lean theorems over all element counts / row lengths / ranks and all lane counts > 0: closed form of the packed loop, every '
          'packed access inside its buffer, packed chunks + tail partition [0,n); SIMD unary / same-shape binary = scalar evaluator for '
          'operands of either layout (column-major operands take the scalar path); 2-d broadcasting binary: every output cell written '
          'exactly once, operand offsets = NumPy broadcasting (incl. (1,1) operands), offsets in bounds, evaluator = NumPy broadcasting; '
@@ -159,6 +174,11 @@ MANIFEST = dict(
          'int16 multiply, unsigned 32/64-bit; counterexamples uint16*uint16 and int32 overflow), hence SIMD = scalar evaluator for integer '
          'binary / broadcast / outer with no lane-wise hypothesis left, and integer add / multiply reductions over any axis are EXACT '
          '(modular + and * are commutative monoids), integer matmul (fmadd = mullo + add) is exactly the modular sum of products; saturating instructions are shown not to be lane-wise. '
+         'Floating-point unary lanes: the vector-extension wrappers are a loop over the lanes applying the builtin selected from the element type; '
+         'a lane loop is lane-wise for the scalar functor IFF its lane function is that functor on every value (packLanes_laneWise_iff), the own-precision '
+         'selection (float -> ceilf, double -> ceil) is, double lanes through the single-precision builtin are iff narrowing is invisible on every double '
+         '(fixed-point witness vecExtCeil_narrowed_not_laneWise), hence vector-extension unary = scalar evaluator with no lane-wise hypothesis; the same lane '
+         'model at Float / Float32 answers the precision-sensitive ceil / floor / sqrt requests of every context bit for bit. '
          'Intrinsic wrappers are an explicit lane-wise hypothesis. Tied to the C++ by a differential run of array::fn(args, ctx) for six '
          'SIMD contexts x float/double and x eight integer types (boundary values of every type) against array::fn(args) in the same binary, the Lean model and NumPy, plus the pure enumerators '
          'tuple by tuple and an ASan run.',
@@ -277,6 +297,19 @@ def shapes_for(L, tier, rng):
     return out + nd
 
 
+def vdata(dt, n, rng, nonzero=False):
+    """value data of the random element-wise cases: eighth-valued numbers in [-8,8] mixed (one in three) with the
+    precision-sensitive values of the dtype (prec_pool)"""
+    pool = prec_pool(dt)
+    out = []
+    for _ in range(n):
+        v = (rng.randint(1, 64) / 8.0) * rng.choice([-1, 1]) if nonzero else rng.randint(-64, 64) / 8.0
+        if rng.randrange(3) == 0:
+            v = pool[rng.randrange(len(pool))]
+        out.append(v)
+    return out
+
+
 def gen_unary(ctx, tier, rng):
     h = hname(ctx)
     for dt in DTYPES:
@@ -301,7 +334,7 @@ def gen_unary(ctx, tier, rng):
             for op in ops:
                 if ctx in NO_MASKOPS and op in ('hardshrink', 'softshrink', 'hardswish'):
                     continue
-                data = [rng.randint(-64, 64) / 8.0 for _ in range(n)]
+                data = vdata(dt, n, rng)
                 if op == 'sqrt':
                     data = [abs(v) for v in data]
                 if op in UNARY_NUMPY_OPS:
@@ -381,6 +414,221 @@ def gen_unary_special(ctx, tier, rng):
                        tags=['unary', 'ctx=' + ctx, dt, 'special-values', 'op=' + op])
 
 
+# ------------------------------------------------------------------------------------------------
+# precision-sensitive values (element-wise kinds): data on which an operation carried out at another precision than
+# the element type's (a double lane narrowed to float, a float lane widened to double and rounded twice, an
+# approximate reciprocal / rsqrt instruction, a fused or re-ordered formula) gives different bits
+# ------------------------------------------------------------------------------------------------
+
+_PREC = {}
+
+
+def prec_pool(dt):
+    """finite, non-zero values of the dtype (as Python floats, exactly representable in the dtype):
+    * integers and activation thresholds (0.5, 1, 3, 6) with their neighbours at 1 ulp of the dtype,
+    * halves x.5 with their neighbours at 1 ulp (ties of ceil / floor / round),
+    * magnitudes around 2^(p-2) .. 2^p, p = precision of the dtype (8388607.5, 16777216 for float; 2^52, 2^53 for double),
+    * for double: values that are NOT floats in a way that matters (2.0000000001, 16777217, 1e10+0.5, 30*0.1 ...),
+    * non-terminating fractions (0.1, 1/3), and large / small magnitudes short of overflow / underflow, smallest
+      normal and subnormal numbers"""
+    if dt in _PREC:
+        return _PREC[dt]
+    t = DTYPES[dt][0]
+    p = 24 if dt == 'f32' else 53
+    fi = np.finfo(t)
+    up, dn = t(np.inf), t(-np.inf)
+    out = []
+
+    def add(v):
+        v = t(v)
+        assert np.isfinite(v) and v != 0
+        f = float(v)
+        if f not in out:
+            out.append(f)
+
+    def around(v):
+        v = t(v)
+        add(np.nextafter(v, dn)); add(v); add(np.nextafter(v, up))
+
+    with np.errstate(all='ignore'):
+        for k in (0.5, 1, 2, 3, 6, 17, 255):
+            around(k); around(-k)
+        for k in (1.5, 2.5, 1000.5, 2.0 ** (p - 2) + 0.5):
+            around(k); around(-k)
+        for e in (p - 1, p):
+            for d in (-1, 0, 1):
+                add(2.0 ** e + d * (1 if e == p - 1 else 2)); add(-(2.0 ** e + d * (1 if e == p - 1 else 2)))
+        add(2.0 ** (p - 1) - 0.5); add(-(2.0 ** (p - 1) - 0.5)); add(2.0 ** p - 1); add(-(2.0 ** p - 1))
+        if dt == 'f64':
+            for v in (2.0000000001, -1.9999999999, 30 * 0.1, -30 * 0.1, 16777217.0, -16777217.0, 1e10 + 0.5, -1e10 - 0.5,
+                      123456789.125, 33554433.0, 8388608.5, -8388607.75, 4294967296.5, 0.5000000001, -0.4999999999,
+                      5.9999999999, 6.0000000001, -3.0000000001, 2.9999999999, 1.0000000001, -1.0000000001,
+                      3.4028235677973366e+38, -3.4028235677973366e+38, 1e39, -1e39, 1e-39, -1e-46, 1.5e-320):
+                add(v)
+        else:
+            for v in (8388609.0, -8388609.0, 16777215.0, 33554436.0, 1e10, -1e10):
+                add(v)
+        for v in (0.1, -0.1, 1 / 3.0, -2 / 3.0, 0.7, 1e-3, 123.456, -9876.54321):
+            add(v)
+        big, tiny = float(fi.max), float(fi.tiny)
+        for v in (big, -big, big / 2, -big / 2, float(np.nextafter(t(big / 2), up)), float(np.sqrt(t(big))), -float(np.sqrt(t(big))) * 0.75,
+                  1e30, -1e30, tiny, -tiny, tiny * 1.5, float(np.nextafter(t(tiny), t(0))), float(np.nextafter(t(0), up)),
+                  -float(np.nextafter(t(0), up)) * 5, 1e-30, -1e-30, 2.0 ** -p, float(np.nextafter(t(2.0 ** -p), up)), -(2.0 ** -p), 2.0 ** (1 - p)):
+            add(v)
+    _PREC[dt] = out
+    return out
+
+
+def prec_unary_ref(op, x):
+    """NumPy statement of every unary op at the element type's own precision: each is a fixed sequence of IEEE-exact
+    operations (comparison, selection, one or a few correctly rounded + - * / sqrt) in the dtype of x; the parameters are
+    those of the harness (hardtanh -1..1, leaky_relu 0.01f, prelu 0.25f, softshrink / hardshrink 0.5f)"""
+    t = x.dtype.type
+    with np.errstate(all='ignore'):
+        if op in ('floor', 'ceil', 'sqrt', 'relu', 'relu6'):
+            z = unary_ref(op, x)
+        elif op == 'hardtanh':
+            z = np.where(x < t(-1), t(-1), np.where(x > t(1), t(1), x))
+        elif op == 'hardshrink':
+            z = np.where((x >= t(-0.5)) & (x <= t(0.5)), t(0), x)
+        elif op == 'softshrink':
+            z = np.where(x > t(0.5), x - t(0.5), np.where(x < t(-0.5), x + t(0.5), t(0)))
+        elif op == 'softsign':
+            z = x / (t(1) + np.abs(x))
+        elif op == 'hardswish':
+            z = np.where(x < t(-3), t(0), np.where(x >= t(3), x, x * (x + t(3)) / t(6)))
+        elif op == 'leaky_relu':
+            z = np.where(x >= t(0), x, t(np.float32(0.01)) * x)
+        elif op == 'prelu':
+            z = np.where(x >= t(0), x, t(np.float32(0.25)) * x)
+        else:
+            raise KeyError(op)
+    z = np.asarray(z)
+    assert z.dtype == x.dtype, (op, z.dtype)
+    return z
+
+
+LANE_MODEL_OPS = ('ceil', 'floor', 'sqrt')      # ops whose lane the Lean model evaluates at native precision (driver: c12.funary)
+
+
+def prec_unary_case(ctx, dt, L, op, data, tags):
+    n = len(data)
+    x = logical(data, [n], 'row', dt)
+    exp = 'ok shape=%d val=%s' % (n, hexbits(prec_unary_ref(op, x), dt))
+    req = 'unary dtype=%s op=%s lanes=%d shape=%d layout=row fmt=hex show=1 data=%s' % (dt, op, L, n, fdata(data))
+    kw = dict(model=False)
+    if op in LANE_MODEL_OPS:
+        # MODEL: Simd.simdEvalUnary over Simd.vecExtUnaryD / vecExtUnaryF (Simd/FloatLanes.lean) at Float / Float32 with the
+        # builtin selected as the unchanged tree does (usef = element type is float); operand sent as bit patterns
+        bits = x.view(np.uint32 if dt == 'f32' else np.uint64).ravel().tolist()
+        kw = dict(model=True, mreq='c12.funary dtype=%s op=%s lanes=%d usef=%d bits=%s' % (dt, op, L, 1 if dt == 'f32' else 0,
+                                                                                       ','.join(str(int(v)) for v in bits)))
+    return Case(req, hname(ctx), dom=True, oracle=exp, nontrivial=(n >= L),
+                tags=['unary', 'ctx=' + ctx, dt, 'values', 'precision', 'op=' + op] + tags + (['lane-model'] if op in LANE_MODEL_OPS else []), **kw)
+
+
+def pad_to(m, L):
+    return ((m + L - 1) // L) * L
+
+
+def gen_unary_precision(ctx, tier, rng):
+    """every unary op x every precision-sensitive value of the dtype, in a PACKED position (all values, padded to whole
+    registers, twice with different register alignment) and in a TAIL position (a full register followed by lanes-1 values:
+    every value once), answered three ways: SIMD evaluator, scalar evaluator (MISMATCH), NumPy in the dtype (bitwise)"""
+    for dt in DTYPES:
+        L = lanes_of(ctx, dt)
+        pool = prec_pool(dt)
+        for op in UNARY_ALL_OPS:
+            if ctx in NO_MASKOPS and op in ('hardshrink', 'softshrink', 'hardswish'):
+                continue
+            vals = pool
+            if op == 'sqrt':
+                vals = []
+                for v in pool:
+                    if abs(v) not in vals:
+                        vals.append(abs(v))
+            m = len(vals)
+            n = pad_to(m, L) + L - 1
+            for rot in (0, L // 2 + 1):
+                yield prec_unary_case(ctx, dt, L, op, take_cyc(vals, rot, n), ['packed'])
+            step = max(1, L - 1)
+            for s in range(0, m, step):
+                yield prec_unary_case(ctx, dt, L, op, take_cyc(vals, s + 29, L) + vals[s:s + step], ['tail'])
+
+
+def prec_pairs(dt, op):
+    """operand pairs on which the rounding of ONE operation in the dtype is visible: ties and near-ties of the sum
+    (1 + 2^-p, 2^p + 1), products and quotients that need every bit, results that just overflow / underflow or just do
+    not, and every pool value against three other pool values (neighbour, far, itself)"""
+    k = (dt, op)
+    if k in _PREC:
+        return _PREC[k]
+    t = DTYPES[dt][0]
+    p = 24 if dt == 'f32' else 53
+    pool = prec_pool(dt)
+    m = len(pool)
+    u = 2.0 ** -p
+    big, tiny = float(np.finfo(t).max), float(np.finfo(t).tiny)
+    nu = lambda v: float(np.nextafter(t(v), t(np.inf)))
+    nd = lambda v: float(np.nextafter(t(v), t(-np.inf)))
+    ps = []
+    if op in ('add', 'subtract'):
+        ps += [(1.0, u), (1.0, nu(u)), (nu(1.0), u), (1.0, -u / 2), (1.0, nd(-u / 2)), (2.0 ** p, 1.0), (2.0 ** p, 3.0), (2.0 ** p + 2, 1.0),
+               (-2.0 ** p, -1.0), (2.0 ** p, -1.0), (0.1, 0.2), (big, big * u / 2), (big, nu(big * u / 2)), (big / 2, big / 2), (big / 2, nu(big / 2)),
+               (tiny, -nd(tiny)), (1e10 + 0.5 if dt == 'f64' else 1024.5, 0.25), (16777216.0, 1.0), (16777217.0 if dt == 'f64' else 16777218.0, -0.5)]
+    elif op == 'multiply':
+        r = float(np.sqrt(t(big)))
+        ps += [(nu(1.0), nu(1.0)), (nu(1.0), nd(1.0)), (3.0, float(t(1 / 3.0))), (0.1, 10.0), (0.1, 0.1), (r, r), (r, nd(r)), (nd(r), nd(r)),
+               (big / 2, 2.0), (big / 2, nu(2.0)), (big, nd(1.0)), (tiny, 0.5), (tiny, nd(1.0)), (tiny, tiny), (nu(tiny), 0.75), (1e-3, 1e3),
+               (16777217.0 if dt == 'f64' else 4097.0, 16777217.0 if dt == 'f64' else 4097.0), (-7.0, float(t(1 / 7.0)))]
+    else:
+        ps += [(1.0, 3.0), (2.0, 3.0), (1.0, 10.0), (-1.0, 7.0), (nu(1.0), nd(1.0)), (nd(1.0), nu(1.0)), (big, 0.5), (big, nu(1.0)), (big, nd(1.0)),
+               (tiny, 2.0), (tiny, nu(1.0)), (1.0, big), (1.0, tiny), (1.0, nd(tiny)), (1.0, 2.0 ** (p - 1) + 1), (22.0, 7.0), (355.0, 113.0),
+               (16777217.0 if dt == 'f64' else 8388609.0, 3.0)]
+    for i in range(m):
+        for j in ((i + 1) % m, (3 * i + 7) % m, i):
+            ps.append((pool[i], pool[j]))
+    ps = [(float(t(a)), float(t(b))) for a, b in ps]
+    assert all(a != 0 and b != 0 and np.isfinite(a) and np.isfinite(b) for a, b in ps)
+    _PREC[k] = ps
+    return ps
+
+
+def gen_binary_precision(ctx, tier, rng):
+    """add / subtract / multiply / divide on the precision-sensitive operand pairs: same shape (every pair packed, twice
+    with different alignment; every pair once in a tail position), 2-d broadcasting (one operand through set1) and outer
+    (add / subtract / multiply), answered by the SIMD evaluator, the scalar evaluator (MISMATCH) and NumPy (bitwise)"""
+    for dt in DTYPES:
+        L = lanes_of(ctx, dt)
+        pool = prec_pool(dt)
+        for op in ('add', 'subtract', 'multiply', 'divide'):
+            pairs = prec_pairs(dt, op)
+            m = len(pairs)
+            n = pad_to(m, L) + L - 1
+            for rot in (0, L // 2 + 1):
+                ps = take_cyc(pairs, rot, n)
+                yield binary_case(ctx, dt, L, op, [n], [n], 'row', 'row', [q[0] for q in ps], [q[1] for q in ps], False,
+                                  ['same-shape', 'values', 'precision', 'packed'], model=False)
+            step = max(1, L - 1)
+            for s in range(0, m, step):
+                # a full register + lanes-1 tail elements: every pair once in the scalar leftover loop
+                ps = take_cyc(pairs, s + 31, L) + pairs[s:s + step]
+                yield binary_case(ctx, dt, L, op, [len(ps)], [len(ps)], 'row', 'row', [q[0] for q in ps], [q[1] for q in ps], False,
+                                  ['same-shape', 'values', 'precision', 'tail'], model=False)
+            # broadcasting: the (R,1) / (1,1) operand goes through set1, the (1,C) one is re-read per row
+            C = 2 * L + 1
+            sel = take_cyc(pool, 5 + len(op), 3)
+            row = take_cyc(pool, 11, C)
+            full = take_cyc(pool, 3, 3 * C)
+            for ls, rs, ld, rd in (([3, C], [3, 1], full, sel), ([3, 1], [1, C], sel, row), ([1, C], [3, C], row, full), ([3, C], [1, 1], full, sel[:1]),
+                                   ([1, 1], [3, C], sel[1:2], full)):
+                yield binary_case(ctx, dt, L, op, ls, rs, 'row', 'row', ld, rd, False, ['bcast2d', 'values', 'precision'], model=False)
+            if op != 'divide':
+                lsel = take_cyc(pool, 2 + 7 * len(op), 5)
+                nr = pad_to(len(pool), L) + L - 1
+                yield outer_case(ctx, dt, L, op, [5], [nr], 'row', 'row', lsel, take_cyc(pool, 1, nr), False, ['values', 'precision'], model=False)
+
+
 def gen_binary(ctx, tier, rng):
     for dt in DTYPES:
         L = lanes_of(ctx, dt)
@@ -390,8 +638,8 @@ def gen_binary(ctx, tier, rng):
             ld, rd = int_operands(op, n, n, rng)
             yield binary_case(ctx, dt, L, op, [n], [n], 'row', 'row', ld, rd, True, ['same-shape', 'model'])
             vop = ['add', 'subtract', 'multiply', 'divide'][n % 4]
-            ld = [rng.randint(-64, 64) / 8.0 for _ in range(n)]
-            rd = [(rng.randint(1, 64) / 8.0) * rng.choice([-1, 1]) for _ in range(n)]
+            ld = vdata(dt, n, rng)
+            rd = vdata(dt, n, rng, nonzero=True)
             yield binary_case(ctx, dt, L, vop, [n], [n], 'row', 'row', ld, rd, False, ['same-shape', 'values'], model=False)
         for shape in ([2, L + 1], [3, 2, L - 1]):
             for ll, rl in (('row', 'row'), ('col', 'col'), ('row', 'col')):
@@ -411,8 +659,8 @@ def gen_binary(ctx, tier, rng):
                     yield binary_case(ctx, dt, L, op, ls, rs, 'row', 'row', ld, rd, True, [tag, 'model'])
                     if k % 3 == 0:
                         vop = ['add', 'subtract', 'multiply', 'divide'][(k // 3) % 4]
-                        ld = [rng.randint(-64, 64) / 8.0 for _ in range(prod(ls))]
-                        rd = [(rng.randint(1, 64) / 8.0) * rng.choice([-1, 1]) for _ in range(prod(rs))]
+                        ld = vdata(dt, prod(ls), rng)
+                        rd = vdata(dt, prod(rs), rng, nonzero=True)
                         yield binary_case(ctx, dt, L, vop, ls, rs, 'row', 'row', ld, rd, False, [tag, 'values'], model=False)
                     if k % 7 == 0 and layout_matters(ls):
                         ld, rd = int_operands('add', prod(ls), prod(rs), rng)
@@ -422,7 +670,8 @@ def gen_binary(ctx, tier, rng):
 def outer_case(ctx, dt, L, op, ls, rs, ll, rl, ldata, rdata, as_int, tags, model=True):
     x = logical(ldata, ls, ll, dt)
     y = logical(rdata, rs, rl, dt)
-    z = BIN_NP[op].outer(x, y)
+    with np.errstate(all='ignore'):
+        z = BIN_NP[op].outer(x, y)
     exp = 'ok shape=%s val=%s' % (fmt(ls + rs), ints_str(z) if as_int else hexbits(z, dt))
     req = 'outer dtype=%s op=%s lanes=%d lshape=%s llayout=%s rshape=%s rlayout=%s fmt=%s show=1 ldata=%s rdata=%s' % (
         dt, op, L, fmt(ls), ll, fmt(rs), rl, 'int' if as_int else 'hex', fdata(ldata), fdata(rdata))
@@ -444,8 +693,8 @@ def gen_outer(ctx, tier, rng):
             yield outer_case(ctx, dt, L, op, ls, rs, 'row', 'row', ld, rd, True, ['model'])
             if k % 4 == 1:
                 vop = ['add', 'subtract', 'multiply'][(k // 4) % 3]
-                ld = [rng.randint(-64, 64) / 8.0 for _ in range(prod(ls))]
-                rd = [rng.randint(-64, 64) / 8.0 for _ in range(prod(rs))]
+                ld = vdata(dt, prod(ls), rng)
+                rd = vdata(dt, prod(rs), rng)
                 yield outer_case(ctx, dt, L, vop, ls, rs, 'row', 'row', ld, rd, False, ['values'], model=False)
             if k % 9 == 2 and (layout_matters(ls) or layout_matters(rs)):
                 ld, rd = int_operands('add', prod(ls), prod(rs), rng)
@@ -941,7 +1190,7 @@ def gen(tier, rng):
     yield from gen_enum(tier, rng)
     for ctx in CTXS:
         san = ctx in SAN_CTXS[tier]
-        for g in (gen_unary, gen_unary_special, gen_binary, gen_outer, gen_reduce, gen_matmul):
+        for g in (gen_unary, gen_unary_special, gen_unary_precision, gen_binary, gen_binary_precision, gen_outer, gen_reduce, gen_matmul):
             for c in g(ctx, tier, rng):
                 c.tags = c.tags + tuple('repaired:' + n for n, pr in REPAIRED_CLASSES if pr(c))
                 unsafe = memory_unsafe(c)
